@@ -130,6 +130,11 @@ var c1Shapes = []string{
 	"for i := 0; i < 2; i++ {\nswitch i {\ncase 0:\nH\ndefault:\ncontinue\n}\n}",
 	"for i := 0; i < 2; i++ {\nswitch {\ncase i >= 0:\nH\nbreak\n}\n}",
 	"if !(a > b+100) {\nif b > a-100 {\nH\n}\n}",
+	// statements after an unconditional jump are dead code: they must not run
+	"for i := 0; i < 2; i++ {\nH\ncontinue\na = -77\nfmt.Println(\"dead\")\n}",
+	"for i := 0; i < 2; i++ {\nH\nbreak\na = -78\nfmt.Println(\"dead\")\n}",
+	"for i := 0; i < 2; i++ {\nif i >= 0 {\nH\ncontinue\na = -79\n}\nfmt.Println(\"dead\")\n}",
+	"n := 0\nL:\nn++\nif n < 3 {\nH\ngoto L\na = -80\n}",
 }
 
 type c1Cell struct {
